@@ -211,6 +211,7 @@ class ShortReader(object):
         self.data = data
         self.pos = 0
         self.cuts = list(cuts)
+        self.empty_reads = 0
 
     def read(self, n=-1):
         if n is None or n < 0:
@@ -222,6 +223,11 @@ class ShortReader(object):
                 break
         out = self.data[self.pos:end]
         self.pos = end
+        if not out and n:
+            # end of stream: a caller that keeps asking is spinning
+            self.empty_reads += 1
+            if self.empty_reads > 3:
+                raise RuntimeError("request handler keeps reading at end of stream")
         return out
 
 
@@ -249,7 +255,7 @@ def h_do_post(shape, c1, c2, ctype):
     handler.server = FakeServer(reply, config)
     handler.path = "/"
     handler.rpc_paths = ()
-    handler.headers = {"content-length": str(len(body))}
+    handler.headers = {"content-length": str(len(body) + shape.get("missing", 0))}
     handler.rfile = ShortReader(body, [c1, c2])
     handler.wfile = io.BytesIO()
     try:
